@@ -549,7 +549,10 @@ func c03CheckOne(c *core.Ctx, idx int, pattern string, enumerated bool) {
 		})
 		c.Event("rules_asked_about_host_names_first", 1)
 	}
-	if c.Rng.Intn(6) == 0 {
+	if c.Rng.Intn(6) == 0 && strings.Count(pattern, "*") <= 1 {
+		// (patterns with at most one wildcard: the reference matcher backtracks,
+		// and several wildcards over four thousand equal characters cost it
+		// minutes)
 		// Addresses longer than the 4 KiB that matching looks at: a witness,
 		// padding, and the witness again beyond the cap.  What the rule says
 		// about such an address is what the mask language says about its first
